@@ -18,7 +18,8 @@ DECIDES = ('(a) latched-transaction rule: in every non-idle state of ULPIRegiste
            'and transmissions only when the control translator is not busy; every non-idle window state returns to '
            'idle or restarts (no dead end), an interrupted write (DIR) restarts from the command byte; (e) the control translator\'s '
            'registered busy flag is 1 in the very cycle a register write is requested (exact evaluation), so that the transmitter '
-           'sees the bus taken when the register window starts driving it. ')
+           'sees the bus taken when the register window starts driving it. '
+           '(f) after done is raised no path restarts the transaction before the window is idle again (done commits the shadow register). ')
 NOT_DECIDED = 'eventual convergence under an arbitrary PHY NXT/DIR schedule (a liveness property over histories).'
 
 
